@@ -15,7 +15,9 @@ import (
 	"runtime/debug"
 	"sort"
 	"strings"
+	"sync"
 	"sync/atomic"
+	"time"
 )
 
 // Kind of a recorded choice point.
@@ -36,12 +38,14 @@ type PointRec struct {
 
 // Status of a finished execution.
 const (
-	StatusDone      = "done"      // all non-daemon threads finished, nothing but spinners left
-	StatusDeadlock  = "deadlock"  // some non-daemon thread unfinished and nothing enabled
-	StatusLivelock  = "livelock"  // only spinning (yield) threads ran for too long
-	StatusHorizon   = "horizon"   // step limit reached
-	StatusPanic     = "panic"     // a managed thread panicked
-	StatusDivergent = "divergent" // replayed prefix did not fit the execution (harness error)
+	StatusDone      = "done"               // all non-daemon threads finished, nothing but spinners left
+	StatusDeadlock  = "deadlock"           // some non-daemon thread unfinished and nothing enabled
+	StatusLivelock  = "livelock"           // only spinning (yield) threads ran for too long
+	StatusHorizon   = "horizon"            // step limit reached
+	StatusPanic     = "panic"              // a managed thread panicked
+	StatusDivergent = "divergent"          // replayed prefix did not fit the execution (harness error)
+	StatusStuck     = "stuck"              // a managed thread did not come back from a step (it is blocked on something the scheduler does not control, a channel) and no other thread can move: a deadlock
+	StatusStuckOpen = "stuck-inconclusive" // the same while another thread could still move (which might release it): the execution is abandoned without a verdict
 )
 
 // Result of one execution.
@@ -81,6 +85,7 @@ type Thread struct {
 	pending *opRec
 	done    bool
 	started bool
+	lost    bool // did not come back from a step (StatusStuck): its goroutine is abandoned
 }
 
 type session struct {
@@ -102,6 +107,42 @@ var active *session
 
 // StepCounter increases on every scheduling step (read by the stuck-step watchdog).
 var StepCounter atomic.Int64
+
+// StuckAfter is how long a single step (library code between two scheduling points: microseconds) may take before the
+// thread is declared blocked outside the scheduler's control.
+var StuckAfter = 20 * time.Second
+
+// stepSeq is odd while a step is in progress; the watchdog offers the value on stuckCh when it has not changed for
+// StuckAfter.
+var (
+	stepSeq      atomic.Int64
+	stuckCh      = make(chan int64, 1)
+	watchdogOnce sync.Once
+)
+
+func startWatchdog() {
+	watchdogOnce.Do(func() {
+		go func() {
+			var last int64
+			since := time.Now()
+			for {
+				time.Sleep(time.Second)
+				cur := stepSeq.Load()
+				if cur != last || cur&1 == 0 {
+					last, since = cur, time.Now()
+					continue
+				}
+				if time.Since(since) > StuckAfter {
+					select {
+					case stuckCh <- cur:
+					default:
+					}
+					since = time.Now()
+				}
+			}
+		}()
+	})
+}
 
 type abortT struct{}
 
@@ -377,6 +418,7 @@ func Run(cfg Config, main func()) *Result {
 	}
 	s := &session{cfg: cfg, ctl: make(chan struct{})}
 	active = s
+	startWatchdog()
 	s.spawn("main", false, main)
 	spin := 0
 	var last *Thread
@@ -448,9 +490,32 @@ func Run(cfg Config, main func()) *Result {
 		}
 		s.running = pick
 		last = pick
+		label := "start"
+		if pick.pending != nil {
+			label = pick.pending.label
+		}
 		pick.pending = nil
+		seq := stepSeq.Add(1) // odd: a step is in progress
 		pick.wake <- struct{}{}
-		<-s.ctl
+		for waiting := true; waiting; {
+			select {
+			case <-s.ctl:
+				waiting = false
+			case v := <-stuckCh:
+				if v == seq {
+					s.status = StatusStuck
+					for _, o := range s.threads {
+						if o != pick && !o.done && o.pending != nil && (o.pending.enabled == nil || o.pending.enabled()) {
+							s.status = StatusStuckOpen // the scheduler runs one thread at a time: what this one waits for may be what that one would do next
+						}
+					}
+					s.panicVal = fmt.Sprintf("thread %s resumed at %q and has not reached another scheduling point for %v: it is blocked on something the scheduler does not control", pick.Name, label, StuckAfter)
+					pick.lost, pick.done = true, true
+					waiting = false
+				}
+			}
+		}
+		stepSeq.Add(1)
 	}
 	res := &Result{Status: s.status, Steps: s.steps, PanicVal: s.panicVal}
 	if s.status == StatusDeadlock || s.status == StatusLivelock {
